@@ -33,6 +33,7 @@ type Leaf struct {
 	Pos          token.Pos
 	wrapFn       types.Object
 	authOrFn     types.Object
+	directOr     bool
 }
 
 type MethodSwitch struct {
@@ -62,6 +63,7 @@ type RouteNode struct {
 	SplitFn    types.Object
 	WrapFns    []types.Object
 	AuthOrFns  []types.Object
+	DirectOr   bool
 }
 
 type ServeModel struct {
@@ -85,6 +87,7 @@ type RouterModel struct {
 	SplitFn  types.Object // the segment splitter every route function calls
 	WrapFn   types.Object // middlewares(h, …)
 	AuthOrFn types.Object // authMiddlewareOr(…)
+	DirectOr bool         // the wrap helper is itself the OR-combinator: withAuth(h, []AuthMiddleware{…})
 	P        *Program
 	Nodes    map[string]*RouteNode
 	Order    []string
@@ -221,6 +224,9 @@ func BuildRouterModel(p *Program) (*RouterModel, error) {
 			} else if m.WrapFn != f {
 				n.Undecided = append(n.Undecided, "leaves use different wrap helpers")
 			}
+		}
+		if n.DirectOr {
+			m.DirectOr = true
 		}
 		for _, f := range n.AuthOrFns {
 			if m.AuthOrFn == nil {
@@ -578,6 +584,9 @@ func (c *rmCtx) methodSwitch(st ast.Stmt, und func(string, ...any)) (*MethodSwit
 		if lf.authOrFn != nil {
 			c.node.AuthOrFns = append(c.node.AuthOrFns, lf.authOrFn)
 		}
+		if lf.directOr {
+			c.node.DirectOr = true
+		}
 		if _, dup := ms.Arms[meth]; dup {
 			und("duplicate method case %s", meth)
 		}
@@ -723,7 +732,9 @@ func (c *rmCtx) leaf(body []ast.Stmt, und func(string, ...any)) *Leaf {
 			if inner, isCall := firstCallArg(call); !isCall || inner == nil {
 				if e, ok2 := c.p.inliner().expandExprCall(call); ok2 {
 					if ec, ok3 := ast.Unparen(e).(*ast.CallExpr); ok3 {
-						call = ec
+						if in2, isCall2 := firstCallArg(ec); isCall2 && in2 != nil {
+							call = ec
+						}
 					}
 				}
 			}
@@ -738,6 +749,27 @@ func (c *rmCtx) leaf(body []ast.Stmt, und func(string, ...any)) *Leaf {
 			return nil
 		}
 		lf.wrapFn = wrapFn
+		if cl, isLit := ast.Unparen(call.Args[1]).(*ast.CompositeLit); isLit {
+			// h = withAuth(h, []AuthMiddleware{a, b}): one helper that is the OR-combinator applied to h
+			okAll := true
+			for _, a := range cl.Elts {
+				f := c.rtField(a)
+				if f == nil {
+					okAll = false
+					break
+				}
+				lf.Auth = append(lf.Auth, f.Name())
+				lf.AuthObjs = append(lf.AuthObjs, f)
+			}
+			if !okAll {
+				und("operation arm: authenticator is not a field of the receiver")
+				return nil
+			}
+			lf.directOr = true
+			lf.Wrapped++
+			i++
+			continue
+		}
 		inner, ok := call.Args[1].(*ast.CallExpr)
 		if !ok {
 			und("operation arm: second argument of middlewares is not a call")
